@@ -24,6 +24,7 @@ func checkC01(c *Check) {
 	c.fsmSlotTypestate("C01.7 fsm-slot-typestate")
 	c.peerConfigVerbatim("C01.7 one-manager-per-peer")
 	c.checkOwnership("C01.7 fsm-table-owned-by-manager")
+	c.rendezvousChannels("C01.1 approval-rendezvous", "transitionCh")
 	c.peerStopDisablesBoth("C01.8 stop-delivers-onclose")
 	c.serveShutdown("C01.8 stop-delivers-onclose")
 }
